@@ -10,6 +10,7 @@
      {"ev":"make","kind":..,"ck":..,"size":..,"cid":..}      the peer produced its next genuine record
      {"ev":"deliver","s":..,"src":..,"chsize":..,"acc":..,"raddr":..,"emit":[..]}
      {"ev":"garbage","src":..,"size":..,"raddr":..,"emit":[..]}
+     {"ev":"hs","src":..,"size":..,"raddr":..,"emit":[..]}   a handshake-phase datagram of the peer (from any address)
      {"ev":"write","raddr":..,"emit":[..]}
      {"ev":"reset"}                                          next session
 
@@ -97,6 +98,20 @@ TGarbage ==
   /\ UNCHANGED <<mgrVars, pseq, recs, seen, maxSeen, routeVars, steps, hist>>
   /\ Adv
 
+\* a datagram of the peer's handshake flights (records the endpoint model does not describe) arrived from Ev.src:
+\* what the endpoint did is adopted; the C15 formulas judge it, the strict comparison does not apply
+THs ==
+  /\ IsEv("hs") /\ Ev.src \in Addr /\ Ev.raddr \in Addr
+  /\ LET em == EmSeq(Ev)
+         \* the datagram is a genuine one of the peer that is delivered once: authentic and newest
+         g == Ghosts(TRUE, TRUE, TRUE, Ev.size, em, Ev.src, Ev.raddr, now) IN
+     /\ raddr' = Ev.raddr
+     /\ emit' = em
+     /\ last' = [op |-> "hs", s |-> 0, src |-> Ev.src, acc |-> FALSE]
+     /\ gs' = g.gs /\ gr' = g.gr /\ newest' = g.newest /\ chal' = g.chal
+  /\ UNCHANGED <<mgrVars, pseq, recs, seen, maxSeen, routeVars, steps, hist>>
+  /\ Adv
+
 TWrite ==
   /\ IsEv("write") /\ Ev.raddr \in Addr
   /\ LET em == EmSeq(Ev)
@@ -119,13 +134,13 @@ TReset ==
   /\ UNCHANGED <<routeVars, steps, hist>>
   /\ Adv
 
-TNext == TClock \/ TMake \/ TDeliver \/ TGarbage \/ TWrite \/ TReset
+TNext == TClock \/ TMake \/ TDeliver \/ TGarbage \/ THs \/ TWrite \/ TReset
 TSpec == TInit /\ [][TNext]_tvars
 
 \* batch form: a step that would falsify a C15 formula cannot be taken, so that the trace gets stuck at the
 \* offending line (no error trace of the whole batch is printed); the session is then re-validated alone
 \* with TSpec and the formulas as INVARIANT / PROPERTY to name the formula
-PropsNow == ThreeTimesBudget /\ NoRRCNoMigration /\ OwnCIDOnly /\ PeerCIDOnEveryProtectedRecord /\ OnlyRrcOffPath
+PropsNow == ThreeTimesBudget /\ NoRRCNoMigration /\ OwnCIDOnly /\ PeerCIDOnEveryProtectedRecord /\ NoAppDataOffPath
 TNextG == TNext /\ AddrChangeOK /\ PropsNow'
 TSpecG == TInit /\ [][TNextG]_tvars
 
